@@ -77,6 +77,31 @@ def desugar(loc, relfile, fn_paths, rules, _pass=0, optional=()):
                     rewrites.append((a, b, new))
                     records.append({"fn": fp, "rule": "D52 X.iter().copied().collect()  =>  pv_collect_copied(&X)   (stub: a collection with the elements of X in order; the target type is the declared one)",
                                     "original": src[a:b], "rewritten": new})
+            if "D58" in rules:
+                # A.iter().zip(B.iter()).filter(|(_, &w)| C).map(|(x, &w)| E).collect::<Box<[_]>>() over two shared slices
+                # `Rc<[T]>` that the function only iterates: an index loop up to the shorter length
+                seg = src[it["start"]:it["end"]]
+                pat = re.compile(r"([a-z_][a-z_0-9]*)\s*\.iter\(\)\s*\.zip\(([a-z_][a-z_0-9]*)\.iter\(\)\)\s*"
+                                 r"\.filter\(\|\((_|[a-z_][a-z_0-9]*), &([a-z_][a-z_0-9]*)\)\| ([^\n]+?)\)\s*"
+                                 r"\.map\(\|\(([a-z_][a-z_0-9]*), &([a-z_][a-z_0-9]*)\)\| ([^\n]+?)\)\s*"
+                                 r"\.collect::<Box<\[_\]>>\(\)")
+                m = pat.search(seg)
+                if not m:
+                    raise Undecided(f"{fp}: the zip/filter/map/collect chain of rule D58 is not there (changed shape)")
+                A, B, f1, f2, C, m1, m2, E = m.groups()
+                fl = (f"let {f1} = &{A}[pv_i]; " if f1 != "_" else "") + f"let {f2} = {B}[pv_i]; "
+                rt = re.search(r"->\s*Box<\[(.+?)\]>\s*\{", seg)
+                ty = f": Vec<{rt.group(1)}>" if rt else ""
+                new = (f"{{ let mut pv_c{ty} = Vec::new(); let mut pv_i: usize = 0; while pv_i < {A}.len() && pv_i < {B}.len() {{ "
+                       f"if {{ {fl}{C} }} {{ let {m1} = &{A}[pv_i]; let {m2} = {B}[pv_i]; pv_c.push({E}); }} pv_i += 1; }} pv_into_boxed(pv_c) }}")
+                a, b = it["start"] + m.start(), it["start"] + m.end()
+                rewrites.append((a, b, new))
+                records.append({"fn": fp, "rule": "D58 A.iter().zip(B.iter()).filter(|(_, &w)| C).map(|(x, &w)| E).collect::<Box<[_]>>()  =>  index loop over 0..min(A.len(), B.len()) pushing E where C holds, then the boxed slice of the pushed items",
+                                "original": src[a:b], "rewritten": new})
+                for mm in re.finditer(r"\bRc<\[([A-Za-z_0-9]+)\]>", seg[:seg.find("{")]):
+                    a, b = it["start"] + mm.start(), it["start"] + mm.end()
+                    rewrites.append((a, b, f"Vec<{mm.group(1)}>"))
+                    records.append({"fn": fp, "rule": "D58 parameter type Rc<[T]> (only iterated)  =>  Vec<T>", "original": src[a:b], "rewritten": f"Vec<{mm.group(1)}>"})
             if "D57" in rules:
                 # a by-value `mut self` receiver (not supported by the installed Verus): the receiver is taken immutably and
                 # moved into a mutable local at once; every `self` of the body is that local
@@ -394,10 +419,21 @@ def desugar(loc, relfile, fn_paths, rules, _pass=0, optional=()):
                     if m_t and tail != "pv_c":
                         tail = f"{{ let pv_r: {m_t.group(1)} = pv_c.into(); pv_r }}"
                     # filter's closure sees `&(usize, &T)` (pattern `&(i, _)`), map's closure sees `(usize, &T)`; the pair is Copy
-                    new = (f"{{ let mut pv_c = Vec::new(); let mut pv_k: usize = 0; while pv_k < {recv}.len() {{ let pv_item = (pv_k, &{recv}[pv_k]); pv_k += 1; "
-                           f"if {{ let {fpat} = pv_item; {fbody} }} {{ let {pat} = pv_item; pv_c.push({body}); }} }} {tail} }}")
+                    ann = ""
+                    if tail == "pv_c.into()":
+                        # a bare `.collect()` that is the function's tail expression: the vector has the declared return type
+                        m_rt = re.search(r"->\s*(Vec<.+?>)\s*\{", src[it["start"]:it["end"]])
+                        if m_rt and src[v["call"][1]:it["end"]].strip() == "}":
+                            ann, tail = f": {m_rt.group(1)}", "pv_c"
+                    # `|(a, b)|` on filter's `&(usize, &T)` argument binds references (default binding modes): destructure `&pv_item`
+                    fsrc = "pv_item" if v.get("fderef", True) else "&pv_item"
+                    once = ""
+                    if v.get("tail") and v["tail"][1] > v["tail"][0]:
+                        once = f" pv_c.push({src[v['tail'][0]:v['tail'][1]]});"
+                    new = (f"{{ let mut pv_c{ann} = Vec::new(); let mut pv_k: usize = 0; while pv_k < {recv}.len() {{ let pv_item = (pv_k, &{recv}[pv_k]); pv_k += 1; "
+                           f"if {{ let {fpat} = {fsrc}; {fbody} }} {{ let {pat} = pv_item; pv_c.push({body}); }} }}{once} {tail} }}")
                     rewrites.append((v["call"][0], v["call"][1], new))
-                    records.append({"fn": fp, "rule": "D38 X.iter().enumerate().filter(|&(i, _)| C).map(|(_, q)| E).collect()  =>  { let mut out = Vec::new(); index loop { let item = (k, &X[k]); if { let (i, _) = item; C } { let (_, q) = item; out.push(E) } } out }",
+                    records.append({"fn": fp, "rule": "D38 X.iter().enumerate().filter(|&(i, _)| C).map(|(_, q)| E)[.chain(std::iter::once(T))].collect()  =>  { let mut out = Vec::new(); index loop { let item = (k, &X[k]); if { let (i, _) = item [&item for the pattern (i, _)]; C } { let (_, q) = item; out.push(E) } } [out.push(T);] out }",
                                     "original": src[v["call"][0]:v["call"][1]], "rewritten": new})
                     continue
                 if v["rule"] == "D22":
